@@ -17,6 +17,7 @@ import (
 	kprdb "github.com/shutter-network/rolling-shutter/rolling-shutter/keyper/database"
 	"github.com/shutter-network/rolling-shutter/rolling-shutter/keyper/epochkghandler"
 	"github.com/shutter-network/rolling-shutter/rolling-shutter/p2pmsg"
+	"github.com/shutter-network/rolling-shutter/rolling-shutter/shdb"
 
 	"verif/harness/kpx"
 	"verif/report"
@@ -479,6 +480,73 @@ func (w *c04world) runCase(s c04spec, si int) (class, sig, violation string) {
 	return "accepted: " + why, "", ""
 }
 
+// c04Restarted: one set of handler objects lives through a restart of the key
+// generation of its keyper set. First the set's eon 5 succeeded (keys K1) and
+// valid messages of the chosen kinds were validated; then shuttermint restarted
+// the key generation for the same keyper set as eon 6, which succeeded with other
+// keys K2. From then on exactly the messages made with K2 are valid.
+func c04Restarted(c *report.Ctx) {
+	for warm := 0; warm < 4; warm++ { // which kinds were validated before the restart: bit 0 shares, bit 1 keys
+		w := newC04world()
+		k1, k2 := w.Set, kpx.NewEonSet(3, 2, "c04-restarted-eon")
+		pool := kpx.NewPool(kprdb.Definition)
+		members := kpx.Addrs(1, 0, 2)
+		kpx.InstallEon(pool, c04Set, members, w.T, 0, 5, kpx.Success, k1.Result(5, 1))
+		cfg := kpx.CoreConfig{Address: kpx.Addr(0), InstanceID: c04Instance, MaxKeys: c04MaxKeys}
+		capt := kpx.NewCapture()
+		capt.AddMessageHandler(
+			epochkghandler.NewDecryptionKeyHandler(cfg, pool),
+			epochkghandler.NewDecryptionKeyShareHandler(cfg, pool),
+			epochkghandler.NewEonPublicKeyHandler(cfg, pool),
+		)
+		deliver := func(keys *kpx.EonSet, typ string, id []byte) (bool, string) {
+			w.Set = keys
+			sp := c04base(typ, 1)
+			sp.Items[0].ID = id
+			topic, data := w.build(sp, nil)
+			d := kpx.Deliver(capt.P2PMessaging, topic, data)
+			c.Stats.Evaluations++
+			if d.Panic != "" {
+				return false, "panic: " + firstLines(d.Panic, 8)
+			}
+			return d.Verdict == 0, ""
+		}
+		fail := func(msg string) {
+			c.Violation("C04/verdict-differs/after-the-key-generation-was-restarted", fmt.Sprintf("kinds validated before the restart: shares=%v keys=%v: %s", warm&1 != 0, warm&2 != 0, msg), c04Replay{State: -1 - warm})
+		}
+		for bit, typ := range []string{"shares", "keys"} {
+			if warm&(1<<bit) == 0 {
+				continue
+			}
+			if ok, p := deliver(k1, typ, c04IDs[0]); !ok {
+				fail(fmt.Sprintf("before the restart a valid %s message is not accepted %s", typ, p))
+			}
+		}
+		ctx := context.Background()
+		q := kprdb.New(pool)
+		kpx.Must(q.InsertEon(ctx, kprdb.InsertEonParams{Eon: 6, Height: 9, ActivationBlockNumber: 0, KeyperConfigIndex: c04Set}))
+		// running, no result yet: nothing is valid
+		for _, typ := range []string{"shares", "keys"} {
+			if ok, p := deliver(k1, typ, c04IDs[1]); ok || p != "" {
+				fail(fmt.Sprintf("the key generation was restarted (eon 6 running, no result): a %s message made with the superseded eon's keys is accepted %s", typ, p))
+			}
+		}
+		r2 := *k2.Result(6, 1)
+		b, err := shdb.EncodePureDKGResult(&r2)
+		kpx.Must(err)
+		kpx.Must(q.InsertDKGResult(ctx, kprdb.InsertDKGResultParams{Eon: 6, Success: true, PureResult: b}))
+		for _, typ := range []string{"shares", "keys"} {
+			if ok, p := deliver(k1, typ, c04IDs[2]); ok || p != "" {
+				fail(fmt.Sprintf("eon 6 succeeded with new keys: a %s message made with the superseded eon 5's keys is accepted %s", typ, p))
+			}
+			if ok, p := deliver(k2, typ, c04IDs[3]); !ok {
+				fail(fmt.Sprintf("eon 6 succeeded with new keys: a valid %s message made with them is rejected %s", typ, p))
+			}
+		}
+		c.Stats.Class(fmt.Sprintf("handlers living through a restarted key generation (validated before: shares=%v keys=%v)", warm&1 != 0, warm&2 != 0))
+	}
+}
+
 func firstLines(s string, n int) string {
 	l := strings.Split(s, "\n")
 	if len(l) > n {
@@ -490,7 +558,7 @@ func firstLines(s string, n int) string {
 func c04() *report.Check {
 	return &report.Check{
 		Level: "exploration",
-		Rule:  "base valid key-shares and keys messages with 1..3 identities x every single and every pair of field mutations (instance id, eon incl. 2^63 and 2^64-1, sender index incl. out of range, share/key bytes of another keyper / identity / eon key, truncated, empty, garbage, stored key, identity changed/empty, order swapped/reversed/duplicated, count 0/max/max+1, flavour extras, envelope version, missing message, other message type on the topic) x 10 receiver database states, on real envelope bytes through the real combined validator (Handle iff accepted); verdict compared with a reference predicate written from the statement. Classes = (verdict, reason)",
+		Rule:  "base valid key-shares and keys messages with 1..3 identities x every single and every pair of field mutations (instance id, eon incl. 2^63 and 2^64-1, sender index incl. out of range, share/key bytes of another keyper / identity / eon key, truncated, empty, garbage, stored key, identity changed/empty, order swapped/reversed/duplicated, count 0/max/max+1, flavour extras, envelope version, missing message, other message type on the topic) x 10 receiver database states, on real envelope bytes through the real combined validator (Handle iff accepted); verdict compared with a reference predicate written from the statement; plus one set of handler objects living through a restart of its keyper set's key generation (eon 5 succeeded, messages validated, eon 6 started, eon 6 succeeded with other keys). Classes = (verdict, reason)",
 		Assumptions: []string{
 			"shcrypto verification functions are the ground truth for 'verifies against the public key (share)'",
 			"accept vs not-accept is compared (Reject and Ignore both count as rejected)",
@@ -499,6 +567,9 @@ func c04() *report.Check {
 		Shards: func(bool) int { return 16 },
 		Budget: minutes(3, 15),
 		Run: func(c *report.Ctx) {
+			if c.Shard == 0 {
+				c04Restarted(c)
+			}
 			w := newC04world()
 			idx := 0
 			for _, typ := range []string{"shares", "keys"} {
@@ -558,6 +629,14 @@ func c04() *report.Check {
 			var rp c04Replay
 			if err := json.Unmarshal(raw, &rp); err != nil {
 				return err.Error()
+			}
+			if rp.State < 0 {
+				cc := &report.Ctx{Property: c.Property, Stats: &report.Stats{}, NShards: 1}
+				c04Restarted(cc)
+				if cc.Violations() > 0 {
+					return "validators are wrong after the key generation of the keyper set was restarted (see the run's message)"
+				}
+				return ""
 			}
 			_, _, v := newC04world().runCase(rp.Spec, rp.State)
 			return v
